@@ -193,6 +193,54 @@ pub open spec fn ident_token_ok(token: Token, table: LookupTable, decls: Seq<Ran
         !(*name_range is Some && name_range->0 == token.range) && !(token.token_type is Ident) ==> ((r is Some) == (class_of(token.token_type) is Some)) && (r is Some ==> r->0.token_type == class_of(token.token_type)->0 && r->0.token_modifiers_bitset == 0), //# collect_proc_dec::lexical_class_otherwise
 //@end
 
+
+// ---------- the top-level closure of `semantic_tokens`: every global declaration is walked over its own tokens
+/// what the three collectors emit for a declaration over a token slice, and the position they leave behind (their per-token closures are under contract above; the
+/// walks themselves are `FnMut` closures in iterator chains)
+pub uninterp spec fn proc_out(pd: ProcedureDeclaration, table: GlobalTable, text: Seq<char>, ts: Seq<Token>, prev: Position) -> (Seq<SemanticToken>, Position);
+pub uninterp spec fn type_out(td: TypeDeclaration, text: Seq<char>, ts: Seq<Token>, prev: Position) -> (Seq<SemanticToken>, Position);
+pub uninterp spec fn error_out(info: AstInfo, text: Seq<char>, ts: Seq<Token>, prev: Position) -> (Seq<SemanticToken>, Position);
+//~assume collect_proc_dec / collect_type_dec / collect_error are functions of their arguments (named proc_out / type_out / error_out); what they do per token is proved above, their iteration is not decided
+//@extract lsp4spl/src/features/semantic_tokens.rs :: fn collect_proc_dec
+//@ ret r
+//@ sig
+    ensures (r@, *final(previous_token_pos)) == proc_out(*pd, *global_table, text@, tokens@, *old(previous_token_pos)),
+//@ assume_body fn collect_proc_dec
+//@end
+//@extract lsp4spl/src/features/semantic_tokens.rs :: fn collect_type_dec
+//@ ret r
+//@ sig
+    ensures (r@, *final(previous_token_pos)) == type_out(*td, text@, tokens@, *old(previous_token_pos)),
+//@ assume_body fn collect_type_dec
+//@end
+//@extract lsp4spl/src/features/semantic_tokens.rs :: fn collect_error
+//@ ret r
+//@ sig
+    ensures (r@, *final(previous_token_pos)) == error_out(*info, text@, tokens@, *old(previous_token_pos)),
+//@ assume_body fn collect_error
+//@end
+//~assume &tokens[offset..] is the suffix of the slice from `offset` (RangeFrom indexing; panics iff offset > len)
+#[verifier::external_body]
+pub fn slice_from<'a>(tokens: &'a [Token], offset: usize) -> (r: &'a [Token])
+    requires offset <= tokens@.len(),
+    ensures r@ == tokens@.subrange(offset as int, tokens@.len() as int),
+{ &tokens[offset..] }
+/// token indexes inside a declaration are relative to its first token: every collector sees `tokens[gd.offset..]`
+pub open spec fn decl_out(gd: Reference<GlobalDeclaration>, table: GlobalTable, text: Seq<char>, ts: Seq<Token>, prev: Position) -> (Seq<SemanticToken>, Position) {
+    let own = ts.subrange(gd.offset as int, ts.len() as int);
+    match gd.reference {
+        GlobalDeclaration::Procedure(pd) => proc_out(pd, table, text, own, prev),
+        GlobalDeclaration::Type(td) => type_out(td, text, own, prev),
+        GlobalDeclaration::Error(info) => error_out(info, text, own, prev),
+    }
+}
+//@extract lsp4spl/src/features/semantic_tokens.rs :: fn semantic_tokens :: closure |gd|
+//@ rewrite tokens_from_gd_offset captured_mut_pos
+//@ lift pub fn tokens_of_declaration(gd: &Reference<GlobalDeclaration>, global_table: GlobalTable, text: String, tokens: &Vec<Token>, previous_token_pos: &mut Position) -> (r: Vec<SemanticToken>)
+//@ sig
+    requires gd.offset <= tokens@.len(),
+    ensures (r@, *final(previous_token_pos)) == decl_out(*gd, global_table, text@, tokens@, *old(previous_token_pos)), //# semantic_tokens::every_declaration_over_its_own_tokens
+//@end
 // ---------- local_declaration_ranges: which tokens declare the parameters and local variables of a procedure
 pub open spec fn param_name(p: Reference<ParameterDeclaration>) -> Option<Identifier> {
     match p.reference { ParameterDeclaration::Valid { doc, is_ref, name, type_expr, info } => name, _ => None }
